@@ -18,7 +18,7 @@ struct Ell {double a, b; int kind;};
 
 Ell genEllipsoid(vf::Ctx & c)
 {
-  size_t k = c.s.pick("ellipsoid", {4, 1, 1, 1, 3});
+  size_t k = c.s.pick("ellipsoid", {4, 1, 1, 1, 3, 1});
   Ell e{6378137.0, 6356752.314, static_cast<int>(k)};
   switch (k) {
     case 0: break;                                                     // GRS80 (library default)
@@ -31,7 +31,12 @@ Ell genEllipsoid(vf::Ctx & c)
         e.b = e.a * (1.0 - f);
       }
   }
-  const char * names[] = {"GRS80", "clarke1880", "intl1924", "sphere", "random-ellipsoid"};
+  if (k == 5) {
+    // almost a sphere: flattening 1e-3 .. 1e-12 (log-uniform) - "nearly spherical" is not "spherical"
+    e.a = c.s.r("a", 6378137.0 * 0.999, 6378137.0 * 1.001);
+    e.b = e.a * (1.0 - std::pow(10.0, -c.s.uni("f_exp", 3.0, 12.0)));
+  }
+  const char * names[] = {"GRS80", "clarke1880", "intl1924", "sphere", "random-ellipsoid", "nearly-spherical(f=1e-3..1e-12)"};
   c.label(names[k]);
   if (k != 0) {c.nontrivial();}
   return e;
@@ -77,6 +82,25 @@ void refForward(const Ell & e, const Geo & g, long double out[3], long double n[
   for (int k = 0; k < 3; ++k) {out[k] = p0[k] + static_cast<long double>(g.h) * n[k];}
 }
 
+// how the converter under test comes into being: directly, or by copy assignment over / copy construction from
+// another converter (value semantics: a copy is the same converter)
+ECEFConverter makeConverter(const Ell & e, int how)
+{
+  if (how == 0) {return (e.kind == 0) ? ECEFConverter() : ECEFConverter(EarthEllipsoid(e.a, e.b));}
+  EarthEllipsoid wanted = (e.kind == 0) ? EarthEllipsoid::GRS80 : EarthEllipsoid(e.a, e.b);
+  if (how == 1) {
+    ECEFConverter conv(EarthEllipsoid(6378249.2, 6356515.0));   // starts life on another ellipsoid ...
+    (void)conv.toWGS84(Eigen::Vector3d(4.2e6, 1.7e5, 4.8e6));   // ... and has been used
+    conv = ECEFConverter(wanted);                                // then takes over the wanted one by assignment
+    return conv;
+  }
+  ECEFConverter * src = new ECEFConverter(wanted);
+  (void)src->toWGS84(Eigen::Vector3d(4.2e6, 1.7e5, 4.8e6));
+  ECEFConverter copy(*src);                                      // copy constructed, source destroyed afterwards
+  delete src;
+  return copy;
+}
+
 void checkGeodeticRange(vf::Ctx & c, const GeodeticCoordinates & r, const char * what)
 {
   c.check(std::isfinite(r.latitude) && std::isfinite(r.longitude) && std::isfinite(r.altitude),
@@ -92,9 +116,11 @@ void forwardRoundTrip(vf::Ctx & c)
 {
   Ell e = genEllipsoid(c);
   Geo g = genGeo(c);
+  int how = static_cast<int>(c.s.pick("converter_made_by", {3, 1, 1}));
+  if (how != 0) {c.label("converter-is-a-copy(assigned/constructed)");}
   c.commit();
 
-  ECEFConverter conv = (e.kind == 0) ? ECEFConverter() : ECEFConverter(EarthEllipsoid(e.a, e.b));
+  ECEFConverter conv = makeConverter(e, how);
   GeodeticCoordinates in = romea::core::makeGeodeticCoordinates(g.lat, g.lon, g.h);
   Eigen::Vector3d P = conv.toECEF(in);
   c.check(P.allFinite(), "toECEF returned a non-finite vector");
@@ -163,8 +189,10 @@ void reverseRoundTrip(vf::Ctx & c)
     c.label("half-plane-Y=0,X<0");
     c.nontrivial();
   }
+  int how = static_cast<int>(c.s.pick("converter_made_by", {3, 1, 1}));
+  if (how != 0) {c.label("converter-is-a-copy(assigned/constructed)");}
   c.commit();
-  ECEFConverter conv = (e.kind == 0) ? ECEFConverter() : ECEFConverter(EarthEllipsoid(e.a, e.b));
+  ECEFConverter conv = makeConverter(e, how);
   GeodeticCoordinates g = conv.toWGS84(X);
   checkGeodeticRange(c, g, "toWGS84(X)");
   Eigen::Vector3d Y = conv.toECEF(g);
